@@ -135,6 +135,11 @@ def work(args):
         rec = dict(X=X0, moves=moves, others=others, problems=[])
         try:
             obj = impl.build(X0)
+            if k in ('G', 'PL') and R.random() < 0.3:
+                # the same point set with the opposite orientation (negated object / reverse=True form): derived state of the
+                # negation must follow the moves like that of a freshly built object
+                obj = impl.ConvexPolygon(tuple(impl.Pt(p) for p in X0[1]), reverse=True) if (k == 'G' and R.random() < 0.5) else -obj
+                rec['negated'] = True
             orig = copy.deepcopy(obj)
             total = E.ZERO3
             X = X0
@@ -214,7 +219,7 @@ def run(ctx, scale=1):
             continue
         ctx.stats['DISAGREE'] += 1
         ctx.violation(key, '%s moved by %s: %s' % (tok(r['X'])[:200], [gen.tv(m) for m in r['moves']], '; '.join(r['problems'][:3])),
-                      dict(x=gen.jsonable(r['X']), moves=gen.jsonable(r['moves']), others=gen.jsonable({k: list(v) for k, v in r['others'].items()})))
+                      dict(x=gen.jsonable(r['X']), moves=gen.jsonable(r['moves']), others=gen.jsonable({k: list(v) for k, v in r['others'].items()}), negated=bool(r.get('negated'))))
     for r in recs[:4]:
         ctx.sample('%s moves %s -> %s' % (tok(r['X'])[:120], [gen.tv(m) for m in r['moves']], r['problems'] or 'consistent'))
 
@@ -229,6 +234,8 @@ def replay(ctx, case):
     X0 = gen.from_jsonable(c['x'])
     moves = [tuple(F(x) for x in m) for m in c['moves']]
     obj = impl.build(X0)
+    if c.get('negated'):
+        obj = -obj
     total = E.ZERO3
     ok = True
     for mv in moves:
